@@ -113,6 +113,17 @@ PROPS = {
         "rule": "cases = corpus grammar x input x configuration incl. runs ending in exceptions from must rules and from actions; "
                 "non-trivial = control hook events validated by TLC",
     },
+    "C18": {
+        "families": ["lim"],
+        "must_count": ["den", "cases"],
+        "nontrivial_key": "den",
+        "level": "Den carries the logical end and the guarded depth: limit_depth< N > raises exactly when a guarded rule would run "
+                 "nested deeper than N and is transparent otherwise; limit_bytes< N > lets the rule see min(end, start + N); TLC checks on "
+                 "every entry that the depth counter equals the number of open guarded invocations and that a byte-limited rule and all "
+                 "it calls see exactly that window, and on every return / exception / end of run that end and counter are restored",
+        "rule": "cases = recursive grammar x nesting depth 0..N+3 x N in 0..3 (depth), byte-limited rule kind (greedy, look-ahead, "
+                "failing, throwing, ...) x start offset x N (bytes), each x configuration; non-trivial = invocations compared with Den",
+    },
     "C01": {
         "families": ["core"],
         "level": L_DEN + "all depth<=1 grammars over the core operators and atoms plus a seeded sample of deeper, recursive "
